@@ -112,6 +112,11 @@ static void blk_sign_envelop(void) {
 		if (r != 1) { snprintf(key, sizeof key, "C16:sign-and-envelop:refused:signers=%d:%s", ns, n ? "content" : "empty-content"); vh_viol(key, "\"signers\":%d,\"recipients\":%d,\"len\":%zu", ns, nr_, n); continue; }
 		for (int i = 0; i < nr_; i++) { int ct; size_t ol = 0; const uint8_t *ri, *si, *sc, *scr, *s1, *s2; size_t ril, sil, scl, scrl, s1l, s2l; r = cms_deenvelop_and_verify(MSG, ml, &RKEY[i][1], RCERT[i], RCL[i], NULL, 0, NULL, 0, &ct, OUT, &ol, &ri, &ril, &si, &sil, &sc, &scl, &scr, &scrl, &s1, &s1l, &s2, &s2l); vh_eval(vh_hash(kk, sizeof kk, 100 + i));
 			if (r != 1 || ol != n || memcmp(OUT, CONTENT, n)) { snprintf(key, sizeof key, "C16:sign-and-envelop:recipient-cannot-open-and-verify:signers=%d", ns); vh_viol(key, "\"signers\":%d,\"recipients\":%d,\"recipient\":%d,\"len\":%zu,\"ret\":%d", ns, nr_, i, n, r); break; } }
+		/* every single-bit modification of the whole message (short contents): whatever is still opened AND verified must hand back exactly the
+		   content type and content that were signed */
+		if (n >= 1 && n <= 17 && ns == nr_ && ns <= 2 && ml < 6000 && (vh_thorough || (ns == 1 && n == 17))) { static uint8_t m2[6000]; for (size_t bit = 0; bit < ml * 8; bit++) { memcpy(m2, MSG, ml); m2[bit / 8] ^= (uint8_t)(1 << (bit % 8)); int ct = -1; size_t ol = 0; const uint8_t *ri, *si, *sc, *scr, *s1, *s2; size_t ril, sil, scl, scrl, s1l, s2l;
+			r = cms_deenvelop_and_verify(m2, ml, &RKEY[0][0], RCERT[0], RCL[0], NULL, 0, NULL, 0, &ct, OUT, &ol, &ri, &ril, &si, &sil, &sc, &scl, &scr, &scrl, &s1, &s1l, &s2, &s2l); vh_eval(vh_hash(kk, sizeof kk, 5000 + bit));
+			if (r == 1 && (ct != OID_cms_data || ol != n || memcmp(OUT, CONTENT, n))) { snprintf(key, sizeof key, "C16:sign-and-envelop:bitflip-accepted-with-altered-%s", ct != OID_cms_data ? "content-type" : "content"); vh_viol(key, "\"signers\":%d,\"len\":%zu,\"bit\":%zu,\"byte\":%zu,\"type_returned\":%d", ns, n, bit, bit / 8, ct); } } }
 		{ int ct; size_t ol = 0; const uint8_t *ri, *si, *sc, *scr, *s1, *s2; size_t ril, sil, scl, scrl, s1l, s2l; r = cms_deenvelop_and_verify(MSG, ml, &RKEY[3][0], RCERT[3], RCL[3], NULL, 0, NULL, 0, &ct, OUT, &ol, &ri, &ril, &si, &sil, &sc, &scl, &scr, &scrl, &s1, &s1l, &s2, &s2l); vh_eval(vh_hash(kk, sizeof kk, 300)); if (nr_ < 4 && r == 1) vh_viol("C16:sign-and-envelop:non-recipient-opens", "\"recipients\":%d", nr_); }
 	}
 }
